@@ -39,7 +39,7 @@ CLAIMS = {
                 "dispatched entry points, no write effect on the rendered object in the rendering call graph, every identity-less "
                 "reduction reachable from an entry point guarded against empty operands (obligation moved to call sites for helper "
                 "parameters, also through local function aliases), null-geometry accesses guarded, cell lists padded. Not decided: "
-                "exact widths/wording. Added later: print_ and the renderers use every option they accept; util.upad measures display width only; strict-JSON dumps reachable from rendering are partial operations. Round 7: memo tables keyed by a lossy projection of the dtype in the rendering functions. Round 9: language-trap lints (one-shot iterators consumed twice, closures over loop variables, mutable defaults, fromkeys with a mutable value, starred itemgetter results used as sequences) over the property's anchor files. Round 10: the first line of a split cell is read only under a dominating test about the cell. Round 11: no tolist() export (missing -> None) on the way to util.upad (GRD-text).",
+                "exact widths/wording. Added later: print_ and the renderers use every option they accept; util.upad measures display width only; strict-JSON dumps reachable from rendering are partial operations. Round 7: memo tables keyed by a lossy projection of the dtype in the rendering functions. Round 9: language-trap lints (one-shot iterators consumed twice, closures over loop variables, mutable defaults, fromkeys with a mutable value, starred itemgetter results used as sequences) over the property's anchor files. Round 10: the first line of a split cell is read only under a dominating test about the cell. Round 11: no tolist() export (missing -> None) on the way to util.upad (GRD-text). Round 12: TRAP-frozen / TRAP-kwmerge as in C12.",
         "note": TRUST,
         "technique": "override-compatibility + effect analysis + guard-dominates-partial-operation (CFG must-facts) + nullable-source rule",
     },
@@ -90,7 +90,7 @@ CLAIMS = {
         "text": "Routing/symmetry of every reader-writer pair decided for all paths and suffixes: where the user's path flows (only "
                 "xopen, makedirs, delegated siblings, or APIs in the external summary table), which file is addressed, and whether "
                 "data is (de)compressed for '', .gz, .bz2, .xz -- writer and reader must agree and honour their docstrings; xopen's "
-                "suffix table; liveness of every option on both sides. Not decided: equality of values after the trip. Added later: every opener in xopen receives **kwargs; every xopen call names its text/binary class; the ListOfDicts CSV reader and writer agree on every parsing-relevant formatting parameter; the re-encoding pass of write_csv has the right polarity, re-opens with the requested encoding and writes back what it read. Round 8: rows returned by csv.reader are not filtered by their contents. Round 9: language-trap lints (one-shot iterators consumed twice, closures over loop variables, mutable defaults, fromkeys with a mutable value, starred itemgetter results used as sequences) over the property's anchor files. Round 10: content filters directly over csv.reader. Round 11: the itemgetter(*names) lint follows one level of local flow and knows writerow / extend / join as sequence consumers.",
+                "suffix table; liveness of every option on both sides. Not decided: equality of values after the trip. Added later: every opener in xopen receives **kwargs; every xopen call names its text/binary class; the ListOfDicts CSV reader and writer agree on every parsing-relevant formatting parameter; the re-encoding pass of write_csv has the right polarity, re-opens with the requested encoding and writes back what it read. Round 8: rows returned by csv.reader are not filtered by their contents. Round 9: language-trap lints (one-shot iterators consumed twice, closures over loop variables, mutable defaults, fromkeys with a mutable value, starred itemgetter results used as sequences) over the property's anchor files. Round 10: content filters directly over csv.reader. Round 11: the itemgetter(*names) lint follows one level of local flow and knows writerow / extend / join as sequence consumers. Round 12: defaults never override the caller's keyword arguments (TRAP-kwmerge); no parameter default reads a package option at definition time (TRAP-frozen) -- both lints run in every check over its anchor files.",
         "note": TRUST,
         "technique": "taint-style path routing over resolved callees with an external summary table; option liveness; sibling agreement of csv dialect/delimiter",
     },
@@ -99,7 +99,7 @@ CLAIMS = {
                 "ordering primitive is the stable lexsort, index vectors are created on and applied to the frame they index with the "
                 "attach/sort ordering that makes split return original positions, group-aware protocol on the DataFrame side "
                 "(_group_ labels from the same indices, None -> default, helper columns removed), run scan of yield_groups, count on a "
-                "copy, order restoration in grouped modify, per-column NA masks as key components in unique. Not decided: summary values. Added later: every (name, function) pair stores a column on every path of aggregate's loop, unmarked functions are not group-aware, the per-group frames exist before an arbitrary function is applied. Round 9: language-trap lints (one-shot iterators consumed twice, closures over loop variables, mutable defaults, fromkeys with a mutable value, starred itemgetter results used as sequences) over the property's anchor files. Round 11: Vector.rank orders the values themselves, never their text; unique's keys are not bit patterns.",
+                "copy, order restoration in grouped modify, per-column NA masks as key components in unique. Not decided: summary values. Added later: every (name, function) pair stores a column on every path of aggregate's loop, unmarked functions are not group-aware, the per-group frames exist before an arbitrary function is applied. Round 9: language-trap lints (one-shot iterators consumed twice, closures over loop variables, mutable defaults, fromkeys with a mutable value, starred itemgetter results used as sequences) over the property's anchor files. Round 11: Vector.rank orders the values themselves, never their text; unique's keys are not bit patterns. Round 12: an explicit `by` of split survives every rebinding (ARG-asgiven).",
         "note": TRUST,
         "technique": "statement-order and def-use rules (index-space discipline), must-facts for the protocol, effect analysis for count, guard engine",
     },
@@ -108,7 +108,7 @@ CLAIMS = {
                 "copied from the statement: minimum group size, under-threshold default, statistic and extra arguments, NA wiring "
                 "(handle_na before any length test; drop_na and is_na().any() of the aggregated column; all/any unfiltered), "
                 "identity-less statistics never bound with nrequired=0, protocol attributes set on every path, first/last = nth(0/-1). "
-                "Decides that the documented default/threshold/NA policy is wired identically in both forms, not the numbers. Added later: every extra statistic argument (ddof) reaches the statistic in every case of both forms (a case taken only for the library default counts as passing it); memoising decorators key on all arguments. Round 7: np.nan_to_num without posinf=/neginf= is not a missing-value substitution. Round 8: exits that skip missing-value handling under an element-type test (timedelta64 is an integer), np.bincount weights, np.unique tie-breaking in mode, explicit index-bounds shortcuts decided exactly (sa/intpred.py). Round 9: language-trap lints (one-shot iterators consumed twice, closures over loop variables, mutable defaults, fromkeys with a mutable value, starred itemgetter results used as sequences) over the property's anchor files. Positional kernels without try/except are decided exactly (position selection, sa/intpred.py). Round 10: an explicit validation of q rejects no value of [0, 1] (decided exactly); masks built from lists state their dtype. Round 11: np.sum(x).item() is guarded like the element-valued results (D34); np.unique without index/inverse/counts is not applied to a Vector (its sort() is not in place).",
+                "Decides that the documented default/threshold/NA policy is wired identically in both forms, not the numbers. Added later: every extra statistic argument (ddof) reaches the statistic in every case of both forms (a case taken only for the library default counts as passing it); memoising decorators key on all arguments. Round 7: np.nan_to_num without posinf=/neginf= is not a missing-value substitution. Round 8: exits that skip missing-value handling under an element-type test (timedelta64 is an integer), np.bincount weights, np.unique tie-breaking in mode, explicit index-bounds shortcuts decided exactly (sa/intpred.py). Round 9: language-trap lints (one-shot iterators consumed twice, closures over loop variables, mutable defaults, fromkeys with a mutable value, starred itemgetter results used as sequences) over the property's anchor files. Positional kernels without try/except are decided exactly (position selection, sa/intpred.py). Round 10: an explicit validation of q rejects no value of [0, 1] (decided exactly); masks built from lists state their dtype. Round 11: np.sum(x).item() is guarded like the element-valued results (D34); np.unique without index/inverse/counts is not applied to a Vector (its sort() is not in place). Round 12: quantile's q survives every rebinding for q = 0 (ARG-asgiven).",
         "note": TRUST,
         "technique": "sibling feature-record extraction by ast dataflow + comparison against a spec table; CFG must-pass-through for protocol attributes",
     },
@@ -121,7 +121,7 @@ CLAIMS = {
                 "returns a list mixing element values with None (list(Optional(T))), whose conversion depends on compile order with "
                 "the Numba installed here -- violated at four sites of the pinned tree, recorded as known finding D25 with the failing "
                 "histories. NOT decided: numerical equality of NumPy vs Numba re-implementations (e.g. the mode loops), rounding, the "
-                "on-disk cache. Round 7: no call or keyword dict sets overwrite_input (the Python statistic would reorder the shared column, the compiled twin copies). Round 8: dtype conversions applied on the compiled path only are value-preserving for every class that reaches them. Round 9: language-trap lints (one-shot iterators consumed twice, closures over loop variables, mutable defaults, fromkeys with a mutable value, starred itemgetter results used as sequences) over the property's anchor files. Positional kernels without try/except are decided exactly (position selection, sa/intpred.py). Round 10: the compiled mode kernel counts an element for itself (NaN / NaT are not equal to themselves) -- D29, repaired. Round 11: UNIFY -- for every element kind use_numba() admits, the result of a generic_numba statistic unifies with the kernel default (timedelta did not: D35).",
+                "on-disk cache. Round 7: no call or keyword dict sets overwrite_input (the Python statistic would reorder the shared column, the compiled twin copies). Round 8: dtype conversions applied on the compiled path only are value-preserving for every class that reaches them. Round 9: language-trap lints (one-shot iterators consumed twice, closures over loop variables, mutable defaults, fromkeys with a mutable value, starred itemgetter results used as sequences) over the property's anchor files. Positional kernels without try/except are decided exactly (position selection, sa/intpred.py). Round 10: the compiled mode kernel counts an element for itself (NaN / NaT are not equal to themselves) -- D29, repaired. Round 11: UNIFY -- for every element kind use_numba() admits, the result of a generic_numba statistic unifies with the kernel default (timedelta did not: D35). Round 12: NA-prop -- a statistic that is NaN-blind under Numba (np.median) leaves the compiled path when missing values are kept (D36).",
         "note": TRUST + " The history clause is decided only through the Optional-list condition, which was established by a probe "
                 "(notes/numba_optional_lists.md); other compile-order effects, if any, are outside this technique.",
         "technique": "twin feature-record comparison over the ast, decorator/registry rules, dtype-kind evaluation of use_numba against "
@@ -131,7 +131,7 @@ CLAIMS = {
         "text": "Necessary conditions of rbind/select/unselect/rename/cbind/update/modify/colnames assignment for all inputs: two-phase "
                 "rename, rbind over every input in argument order with an order-preserving union of names and NA parts built from one "
                 "reference column at the lacking input's row count, name-value provenance in select/rename/unselect, first-wins / "
-                "replace semantics of cbind/update/modify, untouched columns yielded whole. Not decided: NumPy promotion. Round 7: modify hands on every existing column unconditionally. Round 8: the colnames setter pops all columns; rename rejects no request because a name already exists. Round 9: language-trap lints (one-shot iterators consumed twice, closures over loop variables, mutable defaults, fromkeys with a mutable value, starred itemgetter results used as sequences) over the property's anchor files. Round 11: the union-of-names idiom of rbind is read in its chain.from_iterable / comprehension spellings too.",
+                "replace semantics of cbind/update/modify, untouched columns yielded whole. Not decided: NumPy promotion. Round 7: modify hands on every existing column unconditionally. Round 8: the colnames setter pops all columns; rename rejects no request because a name already exists. Round 9: language-trap lints (one-shot iterators consumed twice, closures over loop variables, mutable defaults, fromkeys with a mutable value, starred itemgetter results used as sequences) over the property's anchor files. Round 11: the union-of-names idiom of rbind is read in its chain.from_iterable / comprehension spellings too. Round 12: an empty request of select / unselect survives every rebinding (ARG-asgiven).",
         "note": TRUST,
         "technique": "def-use and loop-structure rules per method (name/value provenance), sibling NA-pair rule, loop-carried hazard rule",
     },
@@ -140,7 +140,7 @@ CLAIMS = {
                 "lists and evaluated over nine kinds with a trusted predicate table encoding NumPy's scalar hierarchy (timedelta64 is an "
                 "integer subtype); value, holding dtype and detector must match each other and the statement; the NA substitution "
                 "predicate equals the inference-ignore predicate and is unconditional; consumers use is_na only. Not decided: which "
-                "dtype NumPy infers for a mixed list; equivalence laws of equal; round trips. Added later: where the substituted missing value comes from (na_value of the known dtype, else guessed from util.unique_types over the WHOLE sequence), _np_array decides the dtype only when none was requested, equal compares only equal lengths, dates are inferred only from a non-empty type set, and/not in the decision lists. Round 7: memo tables keyed by a lossy projection of the dtype (type/num/kind/char); nan_to_num; every return of unique_types passes the None/NaN filter. Round 8: NA-blind exits of Vector methods; the None/NaN substitution is unguarded. Round 9: language-trap lints (one-shot iterators consumed twice, closures over loop variables, mutable defaults, fromkeys with a mutable value, starred itemgetter results used as sequences) over the property's anchor files. Round 10: replace_na / drop_na / is_na raise nothing themselves; masks built from lists state their dtype.",
+                "dtype NumPy infers for a mixed list; equivalence laws of equal; round trips. Added later: where the substituted missing value comes from (na_value of the known dtype, else guessed from util.unique_types over the WHOLE sequence), _np_array decides the dtype only when none was requested, equal compares only equal lengths, dates are inferred only from a non-empty type set, and/not in the decision lists. Round 7: memo tables keyed by a lossy projection of the dtype (type/num/kind/char); nan_to_num; every return of unique_types passes the None/NaN filter. Round 8: NA-blind exits of Vector methods; the None/NaN substitution is unguarded. Round 9: language-trap lints (one-shot iterators consumed twice, closures over loop variables, mutable defaults, fromkeys with a mutable value, starred itemgetter results used as sequences) over the property's anchor files. Round 10: replace_na / drop_na / is_na raise nothing themselves; masks built from lists state their dtype. Round 12: with an explicit dtype the substituted missing value is that dtype's na_value in every truthiness scenario (NA-dtype).",
         "note": TRUST + " Predicate/kind table in sa/props/C10.py.",
         "technique": "abstract evaluation of ordered decision lists over a finite kind lattice; predicate-equality of two comprehensions",
     },
@@ -166,7 +166,7 @@ CLAIMS = {
         "text": "Necessary conditions of ListOfDicts joins/aggregate for all inputs: first-match lookup built over reversed(other), "
                 "inner/left twins strip right-hand key names and update only the left item with a fresh dict (no write effect on the "
                 "right operand), semi/anti complementary tests on one id set, full_join's reverse join gets role-swapped by-tuples and "
-                "unused right items are found by synthetic id, aggregate groups/buckets/sort use one key extraction. Not decided: which items match. Added later: full_join skips its reverse part only when no right item is left over, renames differently named keys in the reverse part and hands on swapped by-pairs as sequences. Round 8: every exit of semi_join / anti_join follows the id set. Round 9: language-trap lints (one-shot iterators consumed twice, closures over loop variables, mutable defaults, fromkeys with a mutable value, starred itemgetter results used as sequences) over the property's anchor files. Round 10: group_by raises nothing itself. Round 11: the ListOfDicts.sort rule (ORD-sort) is part of this check, since aggregate orders its groups with it.",
+                "unused right items are found by synthetic id, aggregate groups/buckets/sort use one key extraction. Not decided: which items match. Added later: full_join skips its reverse part only when no right item is left over, renames differently named keys in the reverse part and hands on swapped by-pairs as sequences. Round 8: every exit of semi_join / anti_join follows the id set. Round 9: language-trap lints (one-shot iterators consumed twice, closures over loop variables, mutable defaults, fromkeys with a mutable value, starred itemgetter results used as sequences) over the property's anchor files. Round 10: group_by raises nothing itself. Round 11: the ListOfDicts.sort rule (ORD-sort) is part of this check, since aggregate orders its groups with it. Round 12: dict(zip(keys, items)) is read as a forward-filled, last-wins lookup.",
         "note": TRUST,
         "technique": "def-use rules on lookup construction, sibling comparison, effect analysis (E3) for the right operand, operand-role rule for full_join",
     },
@@ -183,7 +183,7 @@ CLAIMS = {
                 "right parameter and are complete; each regex function calls re.<own name> identically in scalar and vector branch "
                 "over the non-missing positions; each dt extractor reads the datetime member of its own name (kind from the stdlib); "
                 "the _pull_* helpers share one skeleton; np.vectorize applications are dominated by the all-missing early return; early "
-                "returns convert like the final return. Not decided: calendar arithmetic, strftime/regex semantics. Added later: from_string narrows to dates only when every time-of-day extractor (hour, minute, second, microsecond) is zero for all parsed values. Round 7: every return of a regex function's vector branch hands back the default-filled (or NA-masked) array. Round 8: every result of dt.to_string is produced by strftime. Round 9: language-trap lints (one-shot iterators consumed twice, closures over loop variables, mutable defaults, fromkeys with a mutable value, starred itemgetter results used as sequences) over the property's anchor files. Vector arguments of dt.replace are read at the row's own position. Round 10: the .dt / .re / .str properties raise nothing themselves. Round 11: the date-narrowing test of from_string looks at the parsed values, never at the format text alone; stored results lead back to x[~na] through every definition.",
+                "returns convert like the final return. Not decided: calendar arithmetic, strftime/regex semantics. Added later: from_string narrows to dates only when every time-of-day extractor (hour, minute, second, microsecond) is zero for all parsed values. Round 7: every return of a regex function's vector branch hands back the default-filled (or NA-masked) array. Round 8: every result of dt.to_string is produced by strftime. Round 9: language-trap lints (one-shot iterators consumed twice, closures over loop variables, mutable defaults, fromkeys with a mutable value, starred itemgetter results used as sequences) over the property's anchor files. Vector arguments of dt.replace are read at the row's own position. Round 10: the .dt / .re / .str properties raise nothing themselves. Round 11: the date-narrowing test of from_string looks at the parsed values, never at the format text alone; stored results lead back to x[~na] through every definition. Round 12: no component value of dt.replace is used as a truth value (ARG-given).",
         "note": TRUST,
         "technique": "registry/forwarding rules, sibling skeleton comparison, guard-dominates-partial-operation, must-convert-on-every-return rule",
     },
